@@ -7,7 +7,7 @@ CONSTANTS
   Defaults <- MCDefaults
   NoRaiseCalls <- MCNoRaise
   MaxObjs = 2
-  MaxUpdate = 2
+  MaxUpdate = 1
   ClearOnSet = TRUE
   ClearOnDelete = TRUE
   Depth = 4
@@ -16,5 +16,4 @@ VIEW View
 INVARIANT WellFormedMaps
 INVARIANT NeverStale
 INVARIANT MemoCoherent
-INVARIANT ExactIsDesignated
 PROPERTY MCIndependent
